@@ -62,8 +62,8 @@ def gen_spec(rng, tier, nmin=2, nmax=7, steps=(40, 160), restarts=True,
                 # (c - cur) completions of this segment
                 segs.append({"steps": nsteps, "kill_after": c - cur})
             else:
-                if c - cur < workers:
-                    continue
+                # legs shorter than the worker count are allowed: the
+                # program must then start only as many jobs as steps are left
                 segs.append({"steps": c})
             cur = c
         segs.append({"steps": nsteps})
